@@ -1,5 +1,5 @@
 """SortProcess (src/sorters.rs): k rows with free keys under an abstract total order; stability; top-N shortcut."""
-import json
+import json, re
 import z3
 from .lib import *
 from .report import Candidate, Broken
@@ -119,6 +119,31 @@ def s_values(ex, st, func, args, ty):
     return [(st, ObjV(it))]
 
 
+def s_keys(ex, st, func, args, ty):
+    m = obj(st, args[0]); ents = st.heap[m.oid].get('model', ())
+    it = st.new_obj(st.fresh_name('iter'), 'Iter'); st.heap[it]['model'] = tuple(slot(st, e[1]) for e in ents)
+    return [(st, ObjV(it))]
+def s_iter_next_back(ex, st, func, args, ty):
+    it = obj(st, args[0]); m = st.heap[it.oid]['model']
+    if not m: return [(st, none(st))]
+    st.heap[it.oid]['model'] = m[:-1]; return [(st, some(st, m[-1]))]
+def s_first_kv(ex, st, func, args, ty, last=False):
+    m = obj(st, args[0]); ents = st.heap[m.oid].get('model', ())
+    if not ents: return [(st, none(st))]
+    e = ents[-1 if last else 0]
+    t = named(st, st.fresh_name('kv'), 'tuple'); st.heap[t.oid][('f', None, 0)] = slot(st, e[1]); st.heap[t.oid][('f', None, 1)] = slot(st, ObjV(e[2]))
+    return [(st, some(st, t))]
+def s_last_kv(ex, st, func, args, ty): return s_first_kv(ex, st, func, args, ty, True)
+def s_key_cmp(ex, st, func, args, ty):
+    """<JsonValue as PartialOrd>::lt/le/gt/ge and Ord::cmp on sort keys: the abstract total order (ranks)"""
+    a, b = obj(st, args[0]), obj(st, args[1]); ra, rb = rank_of(st, a), rank_of(st, b); op = func.rsplit('::', 1)[1]
+    if op == 'cmp':
+        o = st.new_obj(st.fresh_name('ord'), 'Ordering'); st.heap[o]['discr'] = BV(z3.If(ra < rb, z3.BitVecVal(-1, 64), z3.If(ra == rb, z3.BitVecVal(0, 64), z3.BitVecVal(1, 64))), True); return [(st, ObjV(o))]
+    return [(st, BoolV({'lt': ra < rb, 'le': ra <= rb, 'gt': ra > rb, 'ge': ra >= rb, 'eq': ra == rb, 'ne': ra != rb}[op]))]
+def s_map_len(ex, st, func, args, ty):
+    m = obj(st, args[0]); return [(st, BV(bv64(len(st.heap[m.oid].get('model', ())))))]
+
+
 def s_next(ex, st, func, args, ty):
     meth = func.split('::')[-1]
     v = ex.fresh_value(st, ty, st.fresh_name('next.' + meth))
@@ -140,6 +165,8 @@ SUMM = [
     (r'BTreeMap::<.*>::last_entry$', s_last_entry), (r'BTreeMap::<.*>::first_entry$', s_first_entry),
     (r'BTreeMap::<.*>::pop_last$', s_pop_last), (r'BTreeMap::<.*>::pop_first$', s_pop_first),
     (r'OccupiedEntry::<.*>::get_mut$|OccupiedEntry::<.*>::into_mut$', s_occ_get_mut), (r'OccupiedEntry::<.*>::remove$', s_occ_remove),
+    (r'BTreeMap::<.*>::keys$', s_keys), (r'as DoubleEndedIterator>::next_back$', s_iter_next_back), (r'BTreeMap::<.*>::first_key_value$', s_first_kv), (r'BTreeMap::<.*>::last_key_value$', s_last_kv),
+    (r'^<&?JsonValue as PartialOrd>::(lt|le|gt|ge)$|^<&?JsonValue as Ord>::cmp$|^<&?JsonValue as PartialEq>::(eq|ne)$', s_key_cmp), (r'BTreeMap::<.*>::len$', s_map_len),
     (r'std::mem::take::<BTreeMap<', s_map_take), (r'BTreeMap::<.*>::into_values$', s_into_values), (r'BTreeMap::<.*>::values$', s_values),
     (r'^Box::<.*(IntoValues|Rev|Iter|ValuesMut|Values|IntoIter).*>::new$', s_identity),
     (r'BTreeMap::<.*>::values_mut$', s_values_mut), (r'as Iterator>::rev$|as DoubleEndedIterator>::rev$', s_iter_rev),
@@ -157,7 +184,13 @@ def sorter(ctx, want_order=True, want_topn=True):
         caps = [c for c in caps if c is not None]
     run.bounds['sorter'] = f'k <= {K} rows, key of each row absent or present with a free rank under an abstract total order (ties included), ASC and DESC, capacity in {caps}'
     run.assume('BTreeMap/VecDeque modelled as ordered sequences (both ends of every operation); the key order is an abstract total order (one Int rank per key) - its being a total order is C07.a')
-    ex = ctx.exec(summaries=SUMM, inline=[(r'SortProcess::remove_last_item$', r'^sorters::<impl at [^>]*>::remove_last_item$')], max_visits=40)
+    # every inherent method of SortProcess found in the MIR is executed (a helper added by an edit is code of the stage)
+    rl = [n for n in ctx.fns if re.search(r'^sorters::<impl at [^>]*>::remove_last_item$', n)]
+    helpers = []
+    if len(rl) == 1:
+        span = re.match(r'^(sorters::<impl at [^>]*>)::', rl[0]).group(1)
+        helpers = [(r'SortProcess::%s$' % re.escape(n[len(span) + 2:]), '^' + re.escape(n) + '$') for n in ctx.fns if n.startswith(span + '::') and '{' not in n[len(span):]]
+    ex = ctx.exec(summaries=SUMM, inline=helpers or [(r'SortProcess::remove_last_item$', r'^sorters::<impl at [^>]*>::remove_last_item$')], max_visits=40)
     F_PROC = ctx.find(r'^sorters::<impl at [^>]*>::process$')
     F_COMP = ctx.find(r'^sorters::<impl at [^>]*>::complete$')
     SP = ctx.structs['SortProcess']
@@ -180,6 +213,7 @@ def sorter(ctx, want_order=True, want_topn=True):
         for i in range(k):
             nxt = []
             for s in states:
+                if s.status != 'returned': nxt.append(s); continue          # a path that panicked / went astray stays as it is
                 c = ObjV(s.new_obj(f'row{i}', 'Context'))
                 s.status = 'running'; ex.new_frame(s, F_PROC, [selfref, c])
                 for d in ex.run(s):
@@ -211,8 +245,12 @@ def sorter(ctx, want_order=True, want_topn=True):
                         continue
                     fam.obligations += 1; fam.paths += 1
                     if d.status != 'returned':
-                        fam.candidates.append(Candidate(fam.name, d.status, f'SortProcess path ends as {d.status} {d.notes} (k={k}, cap={cap})',
-                                                        unmodelled=(d.havoc or [None])[0]))
+                        keyed_ = [e[1] for e in d.events if e[0] == 'key' and e[2] == 'some']
+                        ok_, m_ = ex.valid(d, z3.BoolVal(False))
+                        ranks_ = {n: (m_.eval(z3.Int('rank:key:' + n), True).as_long() if m_ is not None else 0) for n in keyed_}
+                        c = Candidate(fam.name, d.status, f'SortProcess path ends as {d.status} {d.notes} (k={k}, {DIRS[direction]}, capacity={cap})',
+                                      {'k': k, 'direction': DIRS[direction], 'capacity': cap, 'ranks': ranks_, 'rows': [f'row{i}' for i in range(k)]}, unmodelled=(d.havoc or [None])[0])
+                        if not any(x.role == c.role for x in fam.candidates): fam.candidates.append(c); cands.append(c)
                         continue
                     keyed = [e[1] for e in d.events if e[0] == 'key' and e[2] == 'some']
                     emitted = [e[1] for e in d.events if e[0] == 'emit']
